@@ -313,7 +313,7 @@ def yield_children(logger: ConsolePrinter, data: Any,
                     and anchor_matched in exclude_alias_matchers):
                 continue
 
-            if isinstance(ele, (CommentedMap, CommentedSeq)):
+            if isinstance(ele, (CommentedMap, CommentedSeq, CommentedSet)):
                 for path in yield_children(
                         logger, ele, terms, pathsep, tmp_path, seen_anchors,
                         search_anchors=search_anchors,
@@ -355,7 +355,7 @@ def yield_children(logger: ConsolePrinter, data: Any,
             ):
                 continue
 
-            if isinstance(val, (CommentedSeq, CommentedMap)):
+            if isinstance(val, (CommentedSeq, CommentedMap, CommentedSet)):
                 for path in yield_children(
                         logger, val, terms, pathsep, tmp_path, seen_anchors,
                         search_anchors=search_anchors,
@@ -364,6 +364,29 @@ def yield_children(logger: ConsolePrinter, data: Any,
                     yield path
             else:
                 yield YAMLPath(tmp_path)
+
+    elif isinstance(data, CommentedSet):
+        if build_path:
+            build_path += str(pathsep)
+        elif pathsep is PathSeparators.FSLASH:
+            build_path = str(pathsep)
+
+        for key in data:
+            tmp_path = build_path + YAMLPath.escape_path_section(key, pathsep)
+
+            key_anchor_matched = Searches.search_anchor(
+                key, terms, seen_anchors, search_anchors=search_anchors,
+                include_aliases=include_key_aliases)
+            logger.debug(
+                ("yaml_paths::yield_children<set>:  "
+                 + "key[{}] has anchor search => {}.")
+                .format(key, key_anchor_matched))
+
+            if (not include_key_aliases
+                    and key_anchor_matched in exclude_alias_matchers):
+                continue
+
+            yield YAMLPath(tmp_path)
 
     else:
         if not build_path and pathsep is PathSeparators.FSLASH:
